@@ -36,8 +36,8 @@ def main(argv=None):
         seed = 0
     try:
         mod = rule_module(pid)
-    except ImportError:
-        print('ANALYSIS-ERROR property=%s no rule module' % pid)
+    except Exception as e:       # a broken checker must never look like a verdict
+        print('ANALYSIS-ERROR property=%s cannot load the rule module: %r' % (pid, e))
         return 2
     rep = Report(pid, tier=tier, seed=seed, level=getattr(mod, 'LEVEL', 'other'))
     try:
@@ -79,4 +79,11 @@ def main(argv=None):
 
 if __name__ == '__main__':
     sys.setrecursionlimit(10000)
-    sys.exit(main())
+    try:
+        code = main()
+    except SystemExit:
+        raise
+    except BaseException as e:       # pragma: no cover
+        print('ANALYSIS-ERROR internal error: %r' % (e,))
+        code = 2
+    sys.exit(code)
